@@ -27,12 +27,14 @@ Inductive mval :=
 | MArr (l : list mval)
 | MTup0
 | MErrV (e : err)                 (* a value of type Error<E> *)
+| MUninit                         (* a MaybeUninit slot that has not been written *)
 | MVariant (n : string).          (* a field-less enum variant of a private enum *)
 
 Inductive pat :=
 | PWild | PVar (x : string)
 | POk (p : pat) | PErr (p : pat) | PSome (p : pat) | PNone | PUnit
 | PVariant (n : string) | PPD (d : pd) | PBool (b : bool)
+| PInt (z : Z)
 | PCmd (k : pd) (p : pat)          (* Command::Position(x) ... *)
 | PUnitC (a b : Z)                 (* a named unit constant used as a pattern *)
 | PArr (ps : list pat) | POr (ps : list pat).
@@ -47,6 +49,14 @@ Inductive mexpr :=
 | EPow (a b : mexpr)
 | EInt (o : Z) (args : list mexpr)      (* raw i64 arithmetic on the field of Time / DimensionlessInteger: 1 + 2 - 3 * 4 / 9 neg *)
 | ECast (to_f32 : bool) (e : mexpr)    (* `as f32` (from i64) / `as i64` (from f32) *)
+| EArrUninit (n : mexpr)               (* [MaybeUninit::uninit(); N] *)
+| ELen (e : mexpr)                     (* the length of a fixed array (a const generic N) *)
+| EIndex (a i : mexpr)                 (* a[i]; out of range panics *)
+| EWriteSlot (l : lval) (i v : mexpr)  (* l[i].write(v) *)
+| EAssumeInit (e : mexpr)              (* .assume_init(): undefined behaviour on an unwritten slot *)
+| EUs (o : Z) (a b : mexpr)            (* usize arithmetic on counters: 1 +, 2 - (underflow panics) *)
+| ESplitAt (e : mexpr) (k : mexpr)     (* .split_at(k) as the array of the two halves *)
+| EForRange (x : string) (lo hi body : mexpr)   (* for x in lo..hi *)
 | EQFrom (e : mexpr)                   (* Quantity::from(e): the table's conversion, or the identity (From<T> for T) on a Quantity *)
 | EOk (e : mexpr) | EErr (e : mexpr) | ESome (e : mexpr) | ENone | EUnit
 | EErrFromNone
@@ -68,7 +78,8 @@ Inductive mexpr :=
 | ECatch (e : mexpr).               (* boundary of an inlined non-mutating call: `return` stops here *)
 
 Definition env := list (string * mval).
-Inductive outcome := ONorm (v : mval) (en : env) | ORet (v : mval) (en : env) | OPanic | OType.
+Inductive outcome := ONorm (v : mval) (en : env) | ORet (v : mval) (en : env) | OPanic | OType
+| OUB.      (* undefined behaviour: an unwritten MaybeUninit slot was read *)
 
 (* API values that are options are kept as MNone / MSome *)
 Fixpoint lift (v : val) : mval :=
@@ -151,6 +162,7 @@ Fixpoint pmatch (p : pat) (v : mval) {struct p} : option env :=
   | PVariant n => match v with MVariant m => if String.eqb n m then Some [] else None | _ => None end
   | PPD d => match v with MV (VPD d') => if pd_eqb d d' then Some [] else None | _ => None end
   | PBool b => match v with MV (VB b') => if Bool.eqb b b' then Some [] else None | _ => None end
+  | PInt z => match v with MV (VI z') => if z =? z' then Some [] else None | _ => None end
   | PCmd k q => match v with MV (VC x) => if pd_eqb k (c_kind x) then pmatch q (MV (VF (c_val x))) else None | _ => None end
   | PUnitC a b => match v with MV (VU u) => if ueqb u (unew c a b) then Some [] else None | _ => None end
   | PArr ps =>
@@ -302,6 +314,19 @@ Fixpoint for_loop (body : env -> tree outcome) (x : string) (items : list mval) 
   | it :: r => do (w, en2) <- body ((x, it) :: en); for_loop body x r (skipn 1 en2)
   end.
 
+(* `for x in lo..hi { body }` with n = hi - lo iterations *)
+Fixpoint for_range (body : env -> tree outcome) (x : string) (lo : Z) (n : nat) (en : env) {struct n} : tree outcome :=
+  match n with
+  | O => Leaf (ONorm MTup0 en)
+  | S k => do (w, en2) <- body ((x, MV (VI lo)) :: en); for_range body x (lo + 1) k (skipn 1 en2)
+  end.
+Fixpoint set_nth (l : list mval) (i : nat) (v : mval) : option (list mval) :=
+  match l, i with
+  | _ :: r, O => Some (v :: r)
+  | a :: r, S k => match set_nth r k v with Some r' => Some (a :: r') | None => None end
+  | [], _ => None
+  end.
+
 Definition ret1 (v : mval) (en : env) : tree outcome := Leaf (ONorm v en).
 Definition opt_leaf (o : option mval) (en : env) : tree outcome :=
   match o with Some w => Leaf (ONorm w en) | None => Leaf OType end.
@@ -334,6 +359,62 @@ Fixpoint eval (e : mexpr) (en : env) {struct e} : tree outcome :=
       | MV (VI z) => if to_f32 then ret1 (MV (VF (f_of_Z z))) en1 else Leaf OType
       | MV (VF x) => if to_f32 then Leaf OType else ret1 (MV (VI (f_to_i64 x))) en1
       | _ => Leaf OType
+      end
+  | EArrUninit n =>
+      do (v, en1) <- eval n en;
+      match v with MV (VI z) => ret1 (MArr (repeat MUninit (Z.to_nat z))) en1 | _ => Leaf OType end
+  | ELen a =>
+      do (v, en1) <- eval a en;
+      match v with MArr l => ret1 (MV (VI (Z.of_nat (List.length l)))) en1 | _ => Leaf OType end
+  | EIndex a i =>
+      do (v, en1) <- eval a en;
+      do (w, en2) <- eval i en1;
+      match v, w with
+      | MArr l, MV (VI z) =>
+          if z <? 0 then Leaf OPanic
+          else match nth_error l (Z.to_nat z) with Some x => ret1 x en2 | None => Leaf OPanic end
+      | _, _ => Leaf OType
+      end
+  | EWriteSlot l i a =>
+      do (w, en1) <- eval i en;
+      do (v, en2) <- eval a en1;
+      match lval_get l en2, w with
+      | Some (MArr items), MV (VI z) =>
+          if z <? 0 then Leaf OPanic
+          else match set_nth items (Z.to_nat z) v with
+               | Some items' => match lval_set l (MArr items') en2 with Some en3 => ret1 MTup0 en3 | None => Leaf OType end
+               | None => Leaf OPanic
+               end
+      | _, _ => Leaf OType
+      end
+  | EAssumeInit a =>
+      do (v, en1) <- eval a en;
+      match v with MUninit => Leaf OUB | _ => ret1 v en1 end
+  | EUs o a b =>
+      do (x, en1) <- eval a en;
+      do (y, en2) <- eval b en1;
+      match x, y with
+      | MV (VI p), MV (VI q) =>
+          if o =? 1 then ret1 (MV (VI (p + q))) en2
+          else if o =? 2 then (if p <? q then Leaf OPanic else ret1 (MV (VI (p - q))) en2)
+          else Leaf OType
+      | _, _ => Leaf OType
+      end
+  | ESplitAt a k =>
+      do (v, en1) <- eval a en;
+      do (w, en2) <- eval k en1;
+      match v, w with
+      | MArr l, MV (VI z) =>
+          if (z <? 0) || (Z.of_nat (List.length l) <? z) then Leaf OPanic
+          else ret1 (MArr [MArr (firstn (Z.to_nat z) l); MArr (skipn (Z.to_nat z) l)]) en2
+      | _, _ => Leaf OType
+      end
+  | EForRange x lo hi body =>
+      do (a, en1) <- eval lo en;
+      do (b, en2) <- eval hi en1;
+      match a, b with
+      | MV (VI p), MV (VI q) => for_range (eval body) x p (Z.to_nat (q - p)) en2
+      | _, _ => Leaf OType
       end
   | EQFrom a =>
       do (v, en1) <- eval a en;
@@ -446,6 +527,7 @@ Definition finish (n_inputs : nat) (o : outcome) : option (res (mval * mval)) :=
   | ORet v en => fin v en
   | OPanic => Some Panic
   | OType => None
+  | OUB => None
   end.
 Definition run_fn (body : mexpr) (self : mval) (inputs : env) : option (res (mval * mval)) :=
   match flatten (eval body (("self", self) :: inputs)) with
